@@ -87,7 +87,7 @@ fn inject() -> std::io::Result<()> {
     }
     Ok(())
 }
-fn rstub_write_all_at(f: &File, _buf: &[u8], _offset: u64) -> std::io::Result<()> {
+fn rstub_write_at(f: &File, buf: &[u8], _offset: u64) -> std::io::Result<usize> {
     use std::os::fd::AsRawFd;
     assert!(f.as_raw_fd() == HT_FD, "recover writes pages only to the hash-table file");
     unsafe {
@@ -95,7 +95,7 @@ fn rstub_write_all_at(f: &File, _buf: &[u8], _offset: u64) -> std::io::Result<()
         HT_WRITES += 1;
         HT_DIRTY = true;
     }
-    inject()
+    inject().map(|_| buf.len())
 }
 fn rstub_sync_all(f: &File) -> std::io::Result<()> {
     use std::os::fd::AsRawFd;
@@ -163,7 +163,7 @@ fn rstub_unpack(_d: &crate::page_diff::PageDiff, _nodes: &[[u8; 32]], _page: &mu
 ///  * [C14] Ok is returned only if no I/O operation failed.
 #[kani::proof]
 #[kani::unwind(5)]
-#[kani::stub(std::os::unix::fs::FileExt::write_all_at, rstub_write_all_at)]
+#[kani::stub(<std::fs::File as std::os::unix::fs::FileExt>::write_at, rstub_write_at)]
 #[kani::stub(std::fs::File::sync_all, rstub_sync_all)]
 #[kani::stub(<&std::fs::File as std::io::Seek>::seek, rstub_seek)]
 #[kani::stub(writeout::truncate_wal, rstub_truncate_wal)]
